@@ -401,6 +401,20 @@ pub fn c17(a: &Args) {
             run_tdf(&mut out, &format!("tdf-{t}-{def}-{w}x{h}-n{nl}-b{bundle}"), if block > 65535 { "block>64K" } else { "table" }, &fonts, single);
             n_tdf += 1;
         }
+        // the 64 KiB boundary of the glyph block (16-bit block size and offsets): colour fonts with 85..=93 full-size glyphs,
+        // the last glyph narrowed so that the block ends a few bytes below / at / above 65535
+        for n in 85..=93usize {
+            for last_w in [30usize, 20, 9, 1] {
+                let mut r = rng(seed, 70_000 + (n * 31 + last_w) as u64);
+                let mut glyphs = vec![None; 94];
+                for g in 0..n { let w = if g + 1 == n { last_w } else { 30 }; glyphs[g] = Some((w, 12, glyph_data(&mut r, 2, w, 12, true))); }
+                let f = TdfIn { name: format!("big{n}"), t: 2, sp: 1, glyphs };
+                let block: usize = f.glyphs.iter().flatten().map(|(_, _, d)| d.len() + 3).sum();
+                if !(block + 1500 > 65535 && block < 65535 + 1500) { continue; }
+                run_tdf(&mut out, &format!("tdf-64k-n{n}-w{last_w}"), if block > 65535 { "block>64K" } else { "block-near-64K" }, &[f], n % 2 == 0);
+                n_tdf += 1;
+            }
+        }
         // seeded random fonts: ragged rows, random subsets
         for d in 0..(if thorough { 200 } else { 40 }) {
             let mut r = rng(seed, 60_000 + d);
